@@ -108,10 +108,46 @@ def gen_seq(rng, tier):
     return lines, stats
 
 
+def gen_release_seq(rng):
+    """the release rule over several backward calls: a chain leaf -> a -> b -> root (and a side branch); backward calls
+    inside and outside retain_grads blocks, retain_grad marks set between calls, later graphs re-using the intermediates;
+    all gradients (present / released) are queried after every call"""
+    lines = [gen_dag.leaf_line((2,), [float(rng.randint(1, 3)), float(rng.randint(-3, -1))], True),
+             't op mul 0,0', 't op add 1,0', 't op mul 2,1', 't ctx new rg', 't ctx new rg']
+    nt = 4
+    active = []
+    nctx = 2
+    for _ in range(rng.randint(3, 8)):
+        r = rng.random()
+        if r < 0.25 and not active:
+            k = rng.randrange(nctx); lines.append(f't ctx enter {k}'); active.append(k)
+        elif r < 0.45 and active:
+            k = active.pop(); lines.append(f't ctx {"exitexc" if rng.chance(.3) else "exit"} {k}')
+        elif r < 0.55:
+            lines.append(f't retain {rng.randrange(1, nt)}')
+        elif r < 0.70:
+            a, b = rng.randrange(1, nt), rng.randrange(nt)
+            lines.append(f't op {rng.pick(["mul", "add"])} {a},{b}'); nt += 1
+        else:
+            root = rng.randrange(1, nt)
+            lines.append(f"t bw {root} 2 {show_floats(gen_dag.rand_data(rng, (2,)))}")
+            lines += [f't grad {k}' for k in range(nt)]
+        lines.append('t modes')
+    while active:
+        lines.append(f't ctx exit {active.pop()}')
+    root = rng.randrange(1, nt)
+    lines.append(f"t bw {root} 2 {show_floats(gen_dag.rand_data(rng, (2,)))}")
+    lines += [f't grad {k}' for k in range(nt)] + [f't flags {k}' for k in range(nt)] + ['t modes']
+    return lines, {'maxdepth': 1, 'pre': True, 'op_in_ng': False}
+
+
 def cases(rng, tier):
     out = []
     for _ in range(150 if tier == 'quick' else 5000):
         lines, stats = gen_seq(rng, tier)
+        out.append({'lines': lines, 'stats': stats, 'desc': ' ; '.join(l for l in lines if not l.startswith(('t flags', 't modes', 't grad')))[:900]})
+    for _ in range(60 if tier == 'quick' else 2000):
+        lines, stats = gen_release_seq(rng)
         out.append({'lines': lines, 'stats': stats, 'desc': ' ; '.join(l for l in lines if not l.startswith(('t flags', 't modes', 't grad')))[:900]})
     corpus = [
         # a context object constructed while another is active, used later
